@@ -1045,6 +1045,21 @@ def _concat(trace, args, avals, params, prim):
     return (res, None)
 
 
+@rule("stack")
+def _stack(trace, args, avals, params, prim):
+    arrs = [to_obj(a) for a in args]
+    res = np.stack(arrs, axis=params["axis"])
+    return (res, None)
+
+
+@rule("tile")
+def _tile(trace, args, avals, params, prim):
+    a = to_obj(args[0])
+    reps = params.get("reps")
+    res = np.tile(a, reps)
+    return (res, None)
+
+
 @rule("pad")
 def _pad(trace, args, avals, params, prim):
     a = to_obj(args[0])
